@@ -4,6 +4,8 @@
 //! * a deterministic step counter ("fuel") that the matching code ticks, so
 //!   that an external monitor can bound a call in logical steps rather than
 //!   wall-clock time;
+//! * a per-iterator count of repeat iterations that consumed no input, so
+//!   that a monitor can observe runs of zero-width iterations directly;
 //! * counters for the search shortcuts taken by `ReMatcher::matches`, so that
 //!   a monitor can show which shortcuts actually fired in the executions it
 //!   observed.
@@ -37,6 +39,8 @@ pub const PROBE_NAMES: [&str; PROBE_COUNT] = [
 thread_local! {
     static STEPS: Cell<u64> = const { Cell::new(0) };
     static LIMIT: Cell<u64> = const { Cell::new(0) };
+    static ZERO_WIDTH_MAX: Cell<u64> = const { Cell::new(0) };
+    static ZERO_WIDTH_LIMIT: Cell<u64> = const { Cell::new(0) };
     static PROBES: [Cell<u64>; PROBE_COUNT] = const { [
         Cell::new(0), Cell::new(0), Cell::new(0), Cell::new(0),
         Cell::new(0), Cell::new(0), Cell::new(0),
@@ -68,6 +72,45 @@ pub(crate) fn tick() {
         LIMIT.with(|l| l.set(0));
         std::panic::panic_any(FuelExhausted);
     }
+}
+
+/// Counts, for one repeat iterator, the iterations that consumed no input.
+/// The largest count any iterator of this thread reached is kept for
+/// `take_zero_width_max`.
+#[derive(Default)]
+pub(crate) struct ZeroWidth(u64);
+
+impl ZeroWidth {
+    /// Record an iteration of the repeated term that went from `from` to `to`.
+    #[inline]
+    pub(crate) fn note(&mut self, from: usize, to: usize) {
+        if from == to {
+            self.0 += 1;
+            ZERO_WIDTH_MAX.with(|m| m.set(m.get().max(self.0)));
+            let limit = ZERO_WIDTH_LIMIT.with(|l| l.get());
+            if limit != 0 && self.0 > limit {
+                ZERO_WIDTH_LIMIT.with(|l| l.set(0));
+                std::panic::panic_any(ZeroWidthExceeded);
+            }
+        }
+    }
+}
+
+/// Payload of the panic raised when a single repeat iterator exceeds the
+/// armed number of zero-width iterations.
+#[derive(Debug)]
+pub struct ZeroWidthExceeded;
+
+/// Arm a limit on the zero-width iterations of a single repeat iterator
+/// (0 = no limit); exceeding it unwinds with `ZeroWidthExceeded`.
+pub fn set_zero_width_limit(limit: u64) {
+    ZERO_WIDTH_LIMIT.with(|l| l.set(limit));
+}
+
+/// Read and reset the largest number of zero-width iterations performed by a
+/// single repeat iterator on this thread.
+pub fn take_zero_width_max() -> u64 {
+    ZERO_WIDTH_MAX.with(|m| m.replace(0))
 }
 
 #[inline]
